@@ -56,6 +56,40 @@ func (fr *Frame) gxSet(st *State, h *Term, c *Term) {
 
 const gxPkg = "github.com/dubbogo/gost/bytes"
 
+// fmtv(x): the text fmt prints for the interface value x with %v, as an uninterpreted function of x
+func fmtvTerm(st *State, x Value) *Term {
+	iv, ok := x.(Iface)
+	if !ok {
+		return nil
+	}
+	if iv.Dyn != nil {
+		if sc, ok := iv.V.(Scalar); ok && sc.T.Sort.Name == "String" {
+			return sc.T // %v of a string is the string
+		}
+	}
+	kt, err := st.keyTerm(iv)
+	if err != nil || kt.Sort.Name != "Int" {
+		return nil
+	}
+	return UF("fmtv", SString, kt)
+}
+
+func fmtvOfArgs(st *State, va Value) *Term {
+	s, ok := va.(Slice)
+	if !ok || !s.Len.IsInt() || s.Len.I.Int64() != 1 {
+		return nil
+	}
+	a, err := st.sliceArray(s)
+	if err != nil {
+		return nil
+	}
+	x, err := st.arrayGet(a, Int(0))
+	if err != nil {
+		return nil
+	}
+	return fmtvTerm(st, x)
+}
+
 func (v *Verifier) model(name string) modelFn {
 	m, ok := models[name]
 	if ok {
@@ -206,6 +240,12 @@ func init() {
 		// format up to its first verb (enough to know that "seatago%dpoint;" is not empty)
 		"fmt.Sprintf": func(fr *Frame, st *State, args []Value, sig *types.Signature) []Outcome {
 			r := Var(st.eng.fresh("sprintf"), SString)
+			if f, ok := args[0].(Scalar); ok && f.T.IsStr() && f.T.S == "%v" {
+				// the default text of one value: a function of that value (spec: fmtv(x))
+				if t := fmtvOfArgs(st, args[1]); t != nil {
+					return ret(st, Scalar{t})
+				}
+			}
 			if f, ok := args[0].(Scalar); ok && f.T.IsStr() {
 				lit := f.T.S
 				if i := strings.IndexByte(lit, '%'); i >= 0 {
@@ -282,6 +322,16 @@ func init() {
 			}
 			return outs
 		},
+	}
+	// bytes.Buffer of the standard library, used write-only (WriteString ... String): same ghost content
+	// as gxbytes.Buffer; a buffer declared in the function under verification starts empty (see Alloc)
+	for _, m := range []string{"Bytes", "Len", "Write", "WriteString", "WriteByte"} {
+		models["(*bytes.Buffer)."+m] = models["(*"+gxPkg+".Buffer)."+m]
+	}
+	models["(*bytes.Buffer).String"] = func(fr *Frame, st *State, args []Value, sig *types.Signature) []Outcome {
+		p := args[0].(Ptr)
+		fr.safety(st, Neq(p.H, Int(0)), "nil *bytes.Buffer")
+		return ret(st, Scalar{st.gxContent(p.H)})
 	}
 	// context.WithValue(parent, key, val): a new context whose Value(key) is val (other keys: unknown)
 	models["context.WithValue"] = func(fr *Frame, st *State, args []Value, sig *types.Signature) []Outcome {
